@@ -22,6 +22,7 @@ def run(ctx, rep):
     check_lines(prog, rep)
     check_baseline(prog, rep)
     check_line_height(prog, rep)
+    check_target_independence(prog, rep)
 
 
 def check_lines(prog, rep):
@@ -190,3 +191,75 @@ def check_line_height(prog, rep):
     want = ("call", "*SaturatingAs>::saturating_as", "_", (("call", "*LineHeight::to_absolute", "_", (("field", ("field", ("param", 1, "self"), ts), field_index(prog, "embedded_graphics::text::text_style::TextStyle", "line_height")),
                                                                                                     ("call", "*::line_height", "_", (("field", ("param", 1, "self"), cs),)))),))
     rep.check(match(ro, want) is not None, "R15.4", "Text::line_height", "Text::line_height must be text_style.line_height.to_absolute(character_style.line_height()); found %s" % show(ro, maxd=6), at=lh.span, fn=lh.path)
+
+
+def check_target_independence(prog, rep):
+    """R15.5 the position a text drawing call returns is the one measure_string predicts — measure_string has no draw
+    target, so neither the returned value nor the decision which value is returned may depend on the target: on every
+    path that does not end in a target error, `target` occurs only (a) as an argument of drawing calls, (b) in the test
+    that such a call succeeded, (c) inside the returned payload of a renderer call that is itself under this rule."""
+    from mirq.paths import show_fact
+    fns = [("draw_string_binary", prog.method1(STYLE, "draw_string_binary", None)),
+           ("draw_string", prog.method1(STYLE, "draw_string", TR)),
+           ("draw_whitespace", prog.method1(STYLE, "draw_whitespace", TR)),
+           ("Text::draw", prog.method1(TEXT, "draw", "embedded_graphics_core::drawable::Drawable"))]
+    RENDER = ("draw_string", "draw_whitespace", "draw_string_binary")
+    P_ = Paths(prog, inline=lambda g: prog.is_new(g), loops="once")
+    work = list(fns)
+    done = set()
+    while work:
+        nm, f = work.pop(0)
+        if f.id in done:
+            continue
+        done.add(f.id)
+        is_t = lambda n: n[0] in ("param", "upvar") and len(n) > 2 and n[2] == "target"
+        if f.kind != "closure" and not any(l.get("name") == "target" for l in f.body["locals"][:f.body["argc"] + 1]):
+            rep.check(False, "R15.5", "target-independent:" + nm, "anchor lost: no `target` parameter", status="undecided", at=f.span, fn=f.path)
+            continue
+
+        def mentions(t, allow_payload):
+            """does the tree use the target outside the allowed places?"""
+            if not isinstance(t, tuple) or not t:
+                return False
+            if isinstance(t[0], str):
+                if is_t(t):
+                    return True
+                if allow_payload and t[0] == "payload" and t[1][0] == "call" and t[1][1].split("::")[-1] in RENDER:
+                    return False
+                return any(mentions(c, allow_payload) for c in t[1:])
+            return any(mentions(c, allow_payload) for c in t)
+        try:
+            summs = P_.of(f)
+        except Unsupported as e:
+            rep.check(False, "R15.5", "target-independent:" + nm, "cannot summarise %s: %s" % (nm, e), status="undecided", at=f.span, fn=f.path)
+            continue
+        bad, n = [], 0
+        for sm in summs:
+            r = sm.ret
+            if r is not None and r[0] == "agg" and str(r[1]).endswith("Result::Err"):
+                continue
+            if r is not None and r[0] == "call":
+                cn = r[1].split("::")[-1]
+                if cn in RENDER:
+                    n += 1   # the outcome of a renderer call handed on unchanged
+                    continue
+                if cn in ("try_fold", "try_for_each", "fold", "map", "and_then"):
+                    # a fold over the lines: the value comes out of the closure, which is put under the same rule
+                    cls = [x for a_ in r[3] for x in walk(a_) if x[0] == "agg" and isinstance(x[1], str) and x[1].startswith("closure:")]
+                    for c in cls:
+                        g = prog.fns.get(c[1][len("closure:"):])
+                        if g is not None and g.body:
+                            work.append((nm + ":closure", g))
+                    if cls and not any(mentions(a_, False) for a_ in r[3] if not (a_[0] == "agg" and str(a_[1]).startswith("closure:"))):
+                        n += 1
+                        continue
+            n += 1
+            if r is not None and any(is_t(x) for x in walk(r)) and mentions(r, True):
+                bad.append("the returned value is computed from the target: %s" % show(r, maxd=5))
+            for fct in sm.facts:
+                if fct[0] == "variant" and fct[1][0] == "call" and set(fct[2]) <= {"Ok", "Continue"}:
+                    continue   # "the drawing call succeeded"
+                if any(isinstance(x, tuple) and any(is_t(y) for y in walk(x)) and mentions(x, True) for x in fct[1:]):
+                    bad.append("which position is returned depends on the target: %s" % show_fact(fct)[:200])
+        rep.check(not bad and n >= 1, "R15.5", "target-independent:" + nm,
+                  "%s must return the position measure_string predicts whatever the target is: %s" % (nm, "; ".join(sorted(set(bad))[:2]) or "no successful path found"), at=f.span, fn=f.path, detail={"paths": n})
